@@ -240,7 +240,7 @@ def rule_parse_resets(rep: Report, rid="C15.reset") -> None:
     rep.ob(rid, "parse() resets the builder unconditionally before anything is started or read", ok, **kw, expected="self.ast_builder.reset() first",
            found=[n[1] for n, c in P.events][:8])
     # the matcher used: the context's matcher; every alternative of it is reset before the first read
-    M = P.ctx_attr("token_matcher")
+    M = P.ctx_attr(N.CTX_MATCHER)
     alts = []
     def collect(t):
         if t is not None and t[0] == "cond":
@@ -254,7 +254,7 @@ def rule_parse_resets(rep: Report, rid="C15.reset") -> None:
     ok = bool(alts) and sorted(map(str, alts)) == sorted(map(str, reset_objs)) and only_choice_guards
     rep.ob(rid, "parse() resets the token matcher it is going to use, unconditionally, before the first token is read", ok, **kw,
            expected="matcher.reset() before read_token, for the matcher stored in the context", found={"context matcher": fmt(M, I) if M else None, "reset": [fmt(x, I) for x in reset_objs]})
-    e, q = P.ctx_attr("errors"), P.ctx_attr("token_queue")
+    e, q = P.ctx_attr(N.CTX_ERRORS), P.ctx_attr(N.CTX_QUEUE)
     eo, qo = (I.obj(e) if e else None), (I.obj(q) if q else None)
     ok = isinstance(eo, HList) and not eo.segs and eo.origin[2] != 0 and isinstance(qo, HList) and not qo.segs and qo.origin[2] != 0 and e != q
     ctx_o = I.obj(P.ctx) if P.ctx else None
@@ -347,6 +347,7 @@ def rule_formatter(rep: Report, rid="C18.fmt") -> None:
                expected="no effect", found=[n[0] for n in eff])
     fi3 = cls.find_method("get_result")
     I3 = new_interp()
+    I3.types[("param", fi3.params()[0])] = cls
     t3, r3, s3 = I3.run(fi3.qualname)
     rep.used_function(fi3.qualname)
     s = ("param", fi3.params()[0])
@@ -357,12 +358,12 @@ def rule_formatter(rep: Report, rid="C18.fmt") -> None:
             and len(segs[0][2]) == 1 and segs[0][2][0][0] == "e"
     rep.ob(rid, "the listing is one formatted line per recorded token, joined by line feeds", ok, file=fi3.file, line=fi3.node.lineno, function=fi3.qualname,
            expected="'\\n'.join(self._format_token(t) for t in self._tokens)", found=fmt(r3, I3))
-    # _format_token
-    fi4 = cls.find_method("_format_token")
-    I4 = new_interp()
-    t4, r4, s4 = I4.run(fi4.qualname)
-    rep.used_function(fi4.qualname)
-    tok = ("param", fi4.params()[-1])
+    # the formatting of one token: the element expression of the joined list (whatever helper computes it, inlined)
+    if not ok:
+        return
+    fi4, I4, t4 = fi3, I3, t3
+    tok = ("elem", segs[0][1])
+    r4 = segs[0][2][0][1]
     line = ("attr", tok, "line")
     eof_guard = r4[0] == "cond" and r4[1] == line and is_const(r4[3], "EOF")
     body = r4[2] if eof_guard else r4
